@@ -49,6 +49,44 @@ META = {
                     'one request thread per connection; a connection is disconnected by its own thread'],
 }
 
+class SerialPolicy:
+    """operation-level interleaving: a thread that has started a request / an assignment runs it to its end (all locks
+    released, reply sent); between operations the next thread is taken from `order` (thread names, one entry per
+    operation) or, when `order` is None, drawn from `rng`.  `p_fine` > 0 adds a few ordinary preemptions inside operations.
+    `run_case` binds the scheduler and the per-thread "stands at the start of an operation" flags."""
+
+    def __init__(self, order=None, rng=None, p_fine=0.0):
+        self.order = None if order is None else list(order)
+        self.rng, self.p_fine = rng, p_fine
+        self.sched, self.boundary = None, {}
+
+    def bind(self, sched, boundary):
+        self.sched, self.boundary = sched, boundary
+
+    def choose(self, enabled, default, step, labels):
+        prev = self.sched.current if self.sched is not None else None
+        if prev in enabled and not self.boundary.get(prev.name):
+            if self.p_fine and self.rng.random() < self.p_fine:
+                return self.rng.randrange(len(enabled))
+            return enabled.index(prev)
+        if self.order is not None:
+            while self.order:
+                name = self.order.pop(0)
+                for i, t in enumerate(enabled):
+                    if t.name == name:
+                        return i
+            return 0
+        return self.rng.randrange(len(enabled))
+
+
+def policy_for(case):
+    if 'choices' in case:
+        return ReplayThenDefault(case['choices'])
+    if 'serial' in case:
+        return SerialPolicy(order=case['serial'])
+    return ReplayThenDefault([])
+
+
 ERRS = [(HardwareError, HardwareError.name), (CommunicationFailedError, CommunicationFailedError.name)]
 # attribute names updaters assign to; exported as value, target, target_max, _a, _ab: `target`/`target_max` and `_a`/`_ab`
 # are prefix-related specifiers, as are the module names T / T2 / T_x used by the scenarios
@@ -131,9 +169,10 @@ class Info:
 
 
 class SConn(Conn):
-    def __init__(self, cid, sched, events, info, stat):
+    def __init__(self, cid, sched, events, info, stat, completed=None):
         super().__init__(cid, sched)
         self.events, self.info, self.stat = events, info, stat
+        self.completed = completed or (lambda: None)
         self.current = None       # the request in progress (set by the handler thread)
 
     def __hash__(self):           # deterministic iteration order of the dispatcher's listener sets
@@ -152,6 +191,7 @@ class SConn(Conn):
                 self.stat['snap'] += 1
         elif msg[0] != 'log':
             self.events.append(['reply', self.cid, self.current, not msg[0].startswith('error_')])
+            self.completed()
             self.current = None
 
 
@@ -183,9 +223,18 @@ def _label(label, info):
 def run_case(case, policy):
     """run one case on the real code under the scheduler; returns (scheduler, observation dict)"""
     s = Scheduler(policy=policy, max_steps=5000)
-    events, emitted, blocked = [], {}, []
+    events, emitted, blocked, tabs, boundary = [], {}, [], [], {}
     stat = {'bcast': 0, 'snap': 0, 'during': 0, 'after': 0}
-    orig_block = s.block
+    orig_block, orig_yield = s.block, s.yield_
+
+    def yield_(label):
+        orig_yield(label)
+        me = s.me()
+        if me is not None:
+            boundary[me.name] = False     # resumed after its first yield point: the operation is under way
+    s.yield_ = yield_
+    if hasattr(policy, 'bind'):
+        policy.bind(s, boundary)
 
     def block(label, cond, timeout=None):
         blocked.append(label[1] if len(label) > 1 else label[0])
@@ -205,6 +254,13 @@ def run_case(case, policy):
                 if pobj.export and pobj.readerror:      # `value` starts as "not initialized"
                     mo.announceUpdate(pobj.name, pobj.value)
         cache0 = info.cache(node)
+
+        def completed():
+            """the dispatcher's tables after a completed operation (a reply was sent / an announced assignment returned)"""
+            d = node.dispatcher
+            tabs.append([len(events) - 1, {
+                'active': sorted(c.cid for c in d._active_connections),
+                'subs': sorted([k, sorted(c.cid for c in v)] for k, v in d._subscriptions.items() if v)}])
         if case.get('broken_logging'):
             # remote logging not set up: no RemoteLogHandler above the module loggers, so that
             # Module.setRemoteLogging -> ValueError('remote handler not found') on every *IDN? and disconnect
@@ -230,12 +286,13 @@ def run_case(case, policy):
                 mo.addCallback(a, mkcb(info.mid(mn), info.pid(mn, info.attr[mn][a]), mo.parameters[a]))
         conns = {}
         for cid in range(1, case['nconn'] + 1):
-            conns[cid] = node.conns[cid] = SConn(cid, s, events, info, stat)
+            conns[cid] = node.conns[cid] = SConn(cid, s, events, info, stat, completed)
             node.dispatcher.add_connection(conns[cid])
 
         def handler(cid, script):
             conn = conns[cid]
             for r in script:
+                boundary['h%d' % cid] = True
                 rj = info.req(r)
                 events.append(['reqStart', cid, rj])
                 conn.current = rj
@@ -246,6 +303,7 @@ def run_case(case, policy):
                     except Exception:
                         ok = False
                     events.append(['reply', cid, rj, ok])
+                    completed()
                     conn.current = None
                     break
                 if r[0] == 'ident':
@@ -257,6 +315,7 @@ def run_case(case, policy):
 
         def updater(u, script):
             for mn, a, e in script:
+                boundary['u%d' % u] = True
                 mo = node.modules[mn]
                 if e[0] == 'e':
                     mo.announceUpdate(a, err=ERRS[e[1]][0]('x'))
@@ -264,14 +323,17 @@ def run_case(case, policy):
                     setattr(mo, a, float(e[1]))
                 if emitted.get(u):
                     events.append(['emitDone', u])
+                    completed()
                     emitted[u] = False
             s.yield_(('end',))
 
         hs = sorted((int(c), scr) for c, scr in case['handlers'].items())
         us = sorted((int(u), scr) for u, scr in case['updaters'].items())
         for cid, scr in hs:
+            boundary['h%d' % cid] = bool(scr)
             s.spawn('h%d' % cid, handler, (cid, scr))
         for u, scr in us:
+            boundary['u%d' % u] = bool(scr)
             s.spawn('u%d' % u, updater, (u, scr))
         result = s.run(wall_timeout=20)
         cache1 = info.cache(node)
@@ -285,7 +347,7 @@ def run_case(case, policy):
         raise RuntimeError(f'scheduler aborted ({result["aborted"]}) on case {json.dumps(case)}')
     setup = {'mods': [[mn, list(info.pars[mn])] for mn in info.mods],
              'conns': sorted(conns), 'cache': cache0, 'logFails': sorted(conns) if case.get('broken_logging') else []}
-    obs = {'events': events, 'cache': cache1, 'result': result, 'setup': setup, 'stat': stat, 'blocked': blocked,
+    obs = {'events': events, 'cache': cache1, 'result': result, 'setup': setup, 'stat': stat, 'blocked': blocked, 'tabs': tabs,
            'sched': [[_tid(t), _label(l, info)] for t, l in s.trace],
            'handlers': [[cid, [info.req(r) for r in scr]] for cid, scr in hs],
            'updaters': [[u, [[info.mid(mn), info.pid(mn, info.attr.get(mn, {}).get(a)), e] for mn, a, e in scr]] for u, scr in us],
@@ -305,6 +367,11 @@ def _diff(a, b):
         if x != y:
             return {'index': i, 'model': x, 'impl': y}
     return None
+
+
+def _tabs(tabs):
+    """canonical form of the model's table snapshots: keys sorted"""
+    return [[i, {'active': t['active'], 'subs': sorted(t['subs'])}] for i, t in tabs]
 
 
 def _odd(sched):
@@ -366,12 +433,16 @@ def assess(obs, model, judge, model_ok=True):
             dis = {'model': {'trace': _diff(model['trace'], ev)}, 'impl': 'observable trace differs'}
         elif model['cache'] != obs['cache']:
             dis = {'model': {'cache': _diff(model['cache'], obs['cache'])}, 'impl': 'final cache differs'}
+        elif _tabs(model['tabs']) != obs['tabs']:
+            d = _diff(_tabs(model['tabs']), obs['tabs'])
+            dis = {'model': {'tables': d, 'event': ev[(d['model'] or d['impl'])[0]]},
+                   'impl': 'subscription tables (_active_connections, _subscriptions) differ after a completed operation'}
     return viols, dis
 
 
 def judge_case(ctx, case):
     """run + ask the driver for one case (shrinking, replay, corpus)"""
-    _, obs = run_case(case, ReplayThenDefault(case.get('choices', [])))
+    _, obs = run_case(case, policy_for(case))
     model, judge = ctx.driver.batch(requests(obs))
     viols, dis = assess(obs, model, judge, ctx.model_ok)
     return obs, model, judge, viols, dis
